@@ -98,10 +98,18 @@ func Run(c *vf.Check) {
 			jobs = append(jobs, func() { runHash(c, g) })
 		}
 	}
+	// a residue group large enough for more than 255 bytes of embedded data (both bytes of the length field in use)
+	for _, g := range groups.ExtraLarge() {
+		g := g
+		for part := 0; part < 3; part++ {
+			part := part
+			jobs = append(jobs, func() { runEmbedLens(c, g, part, []int{-1, 0, 1, 2, 127, 128, 254, 255, 256, 257, 300, 380, 381, 382}) })
+		}
+	}
 	jobs = append(jobs, func() { runRFC(c) })
 	vf.Parallel(len(jobs), func(i int) { jobs[i]() })
 	c.Finish("engine E: Pick on every group with the capability under 13 non-constant streams (counter, 6 seeded, all-zero / all-0xff prefixes of 1,3,7 point lengths forcing retries): independent membership (curve equation / x^q=1) and (q-1)P+P=O, same stream => same bytes whatever the receiver held, different seeded streams => different points. "+
-		"Embed on every group with the capability: every data length 0..EmbedLen+8 x {0x00, 0xff, counter} (+ nil and empty): member, Data() = data truncated to EmbedLen, also after decode(encode(P)) and Clone. Data on crafted members with length field in {EmbedLen-1, EmbedLen, EmbedLen+1, EmbedLen+2, 255}: error iff the field exceeds EmbedLen, else exactly the stored bytes. "+
+		"Embed on every group with the capability (and, for the lengths {0,1,2,127,128,254..257,300,EmbedLen-1..EmbedLen+8}, on the quadratic residues of the 3072-bit RFC 3526 prime, EmbedLen 381): every data length 0..EmbedLen+8 x {0x00, 0xff, counter} (+ nil and empty): member, Data() = data truncated to EmbedLen, also after decode(encode(P)) and Clone. Data on crafted members with length field in {EmbedLen-1, EmbedLen, EmbedLen+1, EmbedLen+2, 255}: error iff the field exceeds EmbedLen, else exactly the stored bytes. "+
 		"Hash-to-group on every hashable G1/G2 (and the Ed25519 RFC 9380 suite): messages of length {0,1,32,255,256,300}: member, deterministic, pairwise different; different domain-separation tags => different points; RFC 9380 vectors for edwards25519_XMD:SHA-512_ELL2_RO_ and BLS12381G1/G2_XMD:SHA-256_SSWU_RO_ (kilic, circl, gnark through their custom-DST entry points). "+
 		"non-trivial = data longer than 0 bytes, retry-forcing streams; distinct by (group, operation, input)",
 		[]string{"constant streams are excluded (an implementation may legitimately never find a point on them)", "RFC 9380 vectors transcribed into /verif"}, nil)
@@ -180,10 +188,20 @@ func pat(kind, n int) []byte {
 	return b
 }
 
-func runEmbed(c *vf.Check, g *groups.G, part int) {
+func runEmbed(c *vf.Check, g *groups.G, part int) { runEmbedLens(c, g, part, nil) }
+
+// runEmbedLens: lens == nil means every length -1 (nil data) .. EmbedLen+8.
+func runEmbedLens(c *vf.Check, g *groups.G, part int, lens []int) {
 	pk := "C17/" + g.Name + "/Embed"
 	el := g.Point().EmbedLen()
-	for n := -1; n <= el+8; n++ {
+	if lens == nil {
+		for n := -1; n <= el+8; n++ {
+			lens = append(lens, n)
+		}
+	} else {
+		lens = append(append([]int{}, lens...), el-1, el, el+1, el+8)
+	}
+	for _, n := range lens {
 		for kind := 0; kind < 3; kind++ {
 			if (n+1+kind)%3 != part {
 				continue
